@@ -69,10 +69,13 @@ impl TDigest {
     }
 
     /// Add a value with a specified weight.
+    ///
+    /// A value that is NaN or infinite is skipped, and so is a weight that is not a positive
+    /// finite number (zero, negative, NaN or infinite): such a call leaves the digest unchanged.
     #[allow(clippy::cast_precision_loss)]
     pub fn add_weighted(&mut self, value: f64, weight: f64) {
-        if !value.is_finite() {
-            return; // Skip NaN and infinity
+        if !value.is_finite() || !weight.is_finite() || weight <= 0.0 {
+            return; // Skip NaN and infinity, and weights that are not positive finite numbers
         }
 
         self.min = self.min.min(value);
@@ -196,12 +199,16 @@ impl TDigest {
 
         let q = q.clamp(0.0, 1.0);
 
-        // Handle edge cases
-        if (q - 0.0).abs() <= f64::EPSILON || self.centroids.len() == 1 {
+        // Handle edge cases. The two end points come first: a single centroid built from
+        // fractional weights covers several values (min < max), and q = 1 must answer max.
+        if (q - 0.0).abs() <= f64::EPSILON {
             return self.min;
         }
         if (q - 1.0).abs() <= f64::EPSILON {
             return self.max;
+        }
+        if self.centroids.len() == 1 {
+            return self.min;
         }
 
         let target = q * self.total_weight;
